@@ -429,7 +429,7 @@ func (x *Exec) mapFind(m *MapV, key Value) *mapEntry {
 
 func (x *Exec) mapSet(m *MapV, key, val Value) {
 	e := x.mapFind(m, key)
-	if x.cur.panic != nil {
+	if x.raised {
 		return
 	}
 	if e != nil {
@@ -475,7 +475,7 @@ func (x *Exec) lookup(fr *Frame, in *ssa.Lookup) {
 	m := base.(*MapV)
 	vt := under(in.X.Type()).(*types.Map).Elem()
 	e := x.mapFind(m, x.get(fr, in.Index))
-	if x.cur.panic != nil {
+	if x.raised {
 		return
 	}
 	var v Value
